@@ -174,12 +174,21 @@ impl Socket for ClientPeer {
 }
 
 /// waits for a worker thread, but not for ever: `None` = it neither finished nor gave up within the deadline
+static STUCK: std::sync::atomic::AtomicUsize = std::sync::atomic::AtomicUsize::new(0);
+/// after three workers that never ended the remaining runs are skipped (each would cost the full deadline again)
+fn too_many_stuck() -> bool {
+    STUCK.load(std::sync::atomic::Ordering::SeqCst) >= 3
+}
 fn join_within(h: std::thread::JoinHandle<()>, secs: u64) -> Option<bool> {
     let (tx, rx) = std::sync::mpsc::channel();
     std::thread::spawn(move || {
         let _ = tx.send(h.join().is_err());
     });
-    rx.recv_timeout(Duration::from_secs(secs)).ok()
+    let r = rx.recv_timeout(Duration::from_secs(secs)).ok();
+    if r.is_none() {
+        STUCK.fetch_add(1, std::sync::atomic::Ordering::SeqCst);
+    }
+    r
 }
 
 fn file_bytes(len: usize) -> Vec<u8> {
@@ -192,6 +201,7 @@ struct Verdict {
 
 /// run one download scenario and evaluate the sender oracles
 fn download(dir: &PathBuf, len: usize, ws: u16, rep: u8, fault: Fault, verdict: &mut Verdict, label: &str) {
+    if too_many_stuck() { return; }
     let path = dir.join("dl.bin");
     let data = file_bytes(len);
     std::fs::write(&path, &data).unwrap();
@@ -210,12 +220,12 @@ fn download(dir: &PathBuf, len: usize, ws: u16, rep: u8, fault: Fault, verdict: 
     let w = Worker::new(boxed, path.clone(), true, BLK, TMO, ws, rep);
     let h = w.send(false).unwrap();
     let ctx = format!("{label}: download len={len} blksize={BLK} windowsize={ws} repeat={rep} fault={fault:?}");
-    let panicked = match join_within(h, 60) {
+    let panicked = match join_within(h, 25) {
         Some(p) => p,
         None => {
-            verdict.violations.push(("C07", format!("{ctx}: the sender neither completed nor gave up within 60 s")));
+            verdict.violations.push(("C07", format!("{ctx}: the sender neither completed nor gave up within 25 s")));
             if label.contains("wrap") {
-                verdict.violations.push(("C15", format!("{ctx}: a download of more than 65535 blocks neither completed nor gave up within 60 s")));
+                verdict.violations.push(("C15", format!("{ctx}: a download of more than 65535 blocks neither completed nor gave up within 25 s")));
             }
             return;
         }
@@ -424,6 +434,7 @@ impl Socket for SenderPeer {
 }
 
 fn upload(dir: &PathBuf, len: usize, ws: u16, rep: u8, fault: Fault, verdict: &mut Verdict, label: &str) {
+    if too_many_stuck() { return; }
     let path = dir.join("ul.bin");
     let _ = std::fs::remove_file(&path);
     if label.contains("over-existing") {
@@ -441,12 +452,12 @@ fn upload(dir: &PathBuf, len: usize, ws: u16, rep: u8, fault: Fault, verdict: &m
     let w = Worker::new(Box::new(peer), path.clone(), false, BLK, TMO, ws, rep);
     let h = w.receive().unwrap();
     let ctx = format!("{label}: upload len={len} blksize={BLK} windowsize={ws} repeat={rep} fault={fault:?}");
-    let panicked = match join_within(h, 60) {
+    let panicked = match join_within(h, 25) {
         Some(p) => p,
         None => {
-            verdict.violations.push(("C07", format!("{ctx}: the receiver neither completed nor gave up within 60 s")));
+            verdict.violations.push(("C07", format!("{ctx}: the receiver neither completed nor gave up within 25 s")));
             if label.contains("wrap") {
-                verdict.violations.push(("C15", format!("{ctx}: an upload of more than 65535 blocks neither completed nor gave up within 60 s")));
+                verdict.violations.push(("C15", format!("{ctx}: an upload of more than 65535 blocks neither completed nor gave up within 25 s")));
             }
             return;
         }
@@ -491,6 +502,9 @@ fn upload(dir: &PathBuf, len: usize, ws: u16, rep: u8, fault: Fault, verdict: &m
     let stored = std::fs::read(&path).unwrap_or_default();
     if progress != nblocks || stored != data {
         verdict.violations.push(("C04", format!("{ctx}: upload did not complete with identical content (acknowledged {} of {} blocks, {} of {} bytes stored)", progress, nblocks, stored.len(), len)));
+        if label.contains("over-existing") {
+            verdict.violations.push(("C06", format!("{ctx}: an upload onto a longer existing file (an accepted overwrite) did not replace the old content entirely ({} of {} bytes stored)", stored.len(), len)));
+        }
         if label.contains("wrap") {
             verdict.violations.push(("C15", format!("{ctx}: an upload of more than 65535 blocks did not complete with identical content (acknowledged {} of {} blocks, {} of {} bytes stored)", progress, nblocks, stored.len(), len)));
         }
@@ -669,16 +683,17 @@ fn aborted_uploads(dir: &PathBuf, verdict: &mut Verdict, runs: &mut u64) {
             for ws in [1u16, 2, 4] {
                 for then_error in [false, true] {
                     for clean in [true, false] {
+                        if too_many_stuck() { return; }
                         *runs += 1;
                         let path = dir.join("abort.bin");
                         let _ = std::fs::remove_file(&path);
                         let peer = AbortPeer { plan: Mutex::new(plan.iter().map(|j| block(*j)).collect()), then_error, error_sent: Mutex::new(false) };
                         let w = Worker::new(Box::new(peer), path.clone(), clean, BLK, TMO, ws, 1);
-                        let joined = join_within(w.receive().unwrap(), 60);
+                        let joined = join_within(w.receive().unwrap(), 25);
                         let ctx = format!("upload of {nb} blocks (blksize {BLK}, windowsize {ws}, {}): {what} by {}",
                                           if clean { "clean-on-error" } else { "keep-on-error" }, if then_error { "ERROR" } else { "silence" });
                         if joined.is_none() {
-                            verdict.violations.push(("C07", format!("{ctx}: the receiver neither completed nor gave up within 60 s")));
+                            verdict.violations.push(("C07", format!("{ctx}: the receiver neither completed nor gave up within 25 s")));
                             continue;
                         }
                         let stored = std::fs::read(&path).ok();
@@ -811,7 +826,7 @@ fn main() {
         }
     }
     // an accepted overwrite: the uploaded file replaces the longer one that was there (C02)
-    if which == "all" || which == "C02" || which == "C13" {
+    if which == "all" || which == "C02" || which == "C13" || which == "C06" {
         for (len, ws) in [(0usize, 1u16), (20, 1), (45, 3)] {
             runs += 1;
             upload(&dir, len, ws, 1, Fault::None, &mut verdict, "receiver over-existing");
